@@ -1,7 +1,7 @@
 (* C04 - Jordan-Wigner transform is exact. *)
 From Coq Require Import NArith List Bool.
 From OFV Require Import Base.Cplx Base.Lin Sem.PauliSem Sem.FermiSem Model.SymbolicOp Model.QubitOp
-  Model.LadderOp Model.JordanWigner Thm.C01.QubitHom Thm.C04.JWSound Check.OpEquiv.
+  Model.LadderOp Model.JordanWigner Thm.C01.QubitHom Thm.C04.JWSound Model.MajoranaOp Thm.C04.MajoranaSound Check.OpEquiv.
 Import ListNotations.
 
 (* the image of one ladder operator acts on every qubit basis state exactly as the ladder operator
@@ -20,6 +20,11 @@ Print Assumptions C04_jw_sound.
 Theorem C04_jw0_sound : forall op s, leq N.eqb (qden (jw0 op) s) (fden op s).
 Proof. exact jw0_sound. Qed.
 Print Assumptions C04_jw0_sound.
+
+(* every MajoranaOperator (gamma_2q = a_q + a+_q, gamma_2q+1 = i (a+_q - a_q)): the image acts as the Majorana word does on Fock space *)
+Theorem C04_majorana_jw_sound : forall op s, leq N.eqb (qden (mjw0 op) s) (mden op s).
+Proof. exact mjw0_sound. Qed.
+Print Assumptions C04_majorana_jw_sound.
 
 (* soundness of the checker run on every implementation output of the fast paths *)
 Theorem C04_checker_sound : forall f q, fermi_pauli_equiv f q = true -> forall s, leq N.eqb (fden f s) (qden q s).
